@@ -207,6 +207,8 @@ def c04_cells(tier="quick"):
     mixes = [
         ("f", lambda: [fx("t0", 2)]),
         ("v", lambda: [vr("t0", 1, 3)]),
+        # a variable task whose minimum is close to the period: lengthening decides validity
+        ("V", lambda: [vr("t0", 3, 6)]),
         ("z", lambda: [zr("t0")]),
         ("ff", lambda: [fx("t0", 2), fx("t1", 1)]),
         ("fv", lambda: [fx("t0", 1), vr("t1", 1, 2)]),
